@@ -26,7 +26,7 @@ from checks import c09_ops as ops_mod
 from checks import ntv2_writer
 
 REF_LINE_BUDGET = 150000
-RUN_STEP_BUDGET = 2000000
+RUN_STEP_BUDGET = 600000
 
 
 class _Ctx(object):
@@ -518,7 +518,7 @@ class C09(CheckBase):
         instr = trace.get('granularity') == 'instr'
         if instr:
             fault_map = {}
-        sched = Sched(T, decider, log, self.is_sut_file, max_steps=RUN_STEP_BUDGET * (8 if instr else 1), faults=fault_map,
+        sched = Sched(T, decider, log, self.is_sut_file, max_steps=RUN_STEP_BUDGET * (2 if instr else 1), faults=fault_map,
                       stalls=stalls, opcode_salt=None, instruction_codes=self.sut_codes if instr else None)
         self.cur_sched = sched
         self.barrier_hits = []
@@ -590,6 +590,15 @@ class C09(CheckBase):
                 status, out = 'cancelled', None
             except StepBudgetExceeded:
                 status, out = 'budget', None
+                # bounded liveness: the call alone needed r['lines'] line events in a pristine process;
+                # if it has consumed far more than that here without finishing, it makes no progress
+                # (spins on hidden state another caller left behind).  Line mode only.
+                r = refs.get(self._opkey(op, trace), {})
+                if not instr and r.get('status') == 'ok' and sched.opline[tid] > 20 * r['lines'] + 20000:
+                    viol.append({'oracle': 'O4-no-progress', 'site': kind,
+                                 'detail': {'op': op['id'], 'thread': tid, 'line_events_used': sched.opline[tid],
+                                            'line_events_alone': r['lines']}})
+                    log.add('O4', kind, op['id'])
             except MemoryError as e:
                 if 'simulated allocation failure' in str(e):
                     status, out = 'oom', None
